@@ -64,6 +64,8 @@ func profiles() map[string]world.Profile {
 		"guardacts": {Name: "guardacts", Len: 45, Locs: []string{"A"}, Ids: []string{"r1", "r2", "f1"}, Rules: true, Keys: true, SideEffects: true, MaxFacts: 1000, Weights: guardacts},
 		"cascadeq": {Name: "cascadeq", Len: 40, Locs: []string{"A"}, Ids: []string{"f1", "f2", "?q", "?x"}, MaxFacts: 1000, Cascade: true,
 			Weights: map[string]int{"AddFact": 30, "RemFact": 16, "GetFact": 10}}, // ids that look like pattern variables
+		"fan": {Name: "fan", Len: 40, Locs: []string{"A"}, Ids: []string{"f1", "f2", "f3", "f4", "f5", "f6"}, MaxFacts: 1000, Cascade: true, Fan: true,
+			Weights: map[string]int{"AddFact": 40, "RemFact": 12, "GetFact": 6, "SearchFacts": 4}},
 		"capacity":     {Name: "capacity", Len: 40, Locs: []string{"A"}, Ids: []string{"f1", "f2", "f3", "f4", "f5"}, Rules: true, MaxFacts: 3, Weights: capacity},
 		"lifecycle":    {Name: "lifecycle", Len: 45, Locs: []string{"A", "B"}, Ids: []string{"r1", "r2"}, Rules: true, Parents: true, Scheduled: true, MaxFacts: 1000, Weights: lifecycle},
 		"dispatch":     {Name: "dispatch", Len: 40, Locs: []string{"A", "B"}, Ids: []string{"r1", "r2", "r3", "f1", "f2"}, Rules: true, Dispatch: true, Parents: true, MaxFacts: 1000, Weights: dispatch},
@@ -190,6 +192,9 @@ func main() {
 						}
 						if *faults && k >= p.Len/3 && (op.Op == "RemFact" || op.Op == "RemRule") && g.R.Intn(3) == 0 {
 							op.FailIn = 1 + g.R.Intn(4) // removals cascade: later writes of the same operation
+						}
+						if *faults && p.Fan && op.Op == "RemFact" && g.R.Intn(3) > 0 {
+							op.FailIn = 1 + g.R.Intn(5) // some write in the middle of the cascade over a fan
 						}
 						w.Do(op)
 						if w.Faulted {
